@@ -281,12 +281,11 @@ Definition cs_insert (s : fw) (now : N) (n : name) (fresh : option N) : fw :=
 
 Definition cs_usable (now : N) (mbf : bool) (e : csent) : bool := negb mbf || (now <? cs_stale e).
 
-(* candidates of findMatchingDataCSPrefix: usable entries at or below the Interest name with no usable entry
-   strictly between (the depth-first search stops at the first usable entry on each path) *)
+(* admissible answers of a CanBePrefix lookup: ANY cached Data at or below the Interest name that is fresh enough under
+   MustBeFresh. Which of them findMatchingDataCSPrefix returns (the pinned depth-first search stops at the first usable entry of a
+   path and follows Go map order) is Content Store semantics (property C07); for the forwarding pipeline the pick is an input. *)
 Definition cs_prefix_candidates (c : list csent) (now : N) (mbf : bool) (n : name) : list csent :=
-  filter (fun e => is_prefix n (cs_name e) && cs_usable now mbf e &&
-                   negb (existsb (fun e' => is_prefix n (cs_name e') && is_prefix (cs_name e') (cs_name e) &&
-                                            negb (name_eqb (cs_name e') (cs_name e)) && cs_usable now mbf e') c)) c.
+  filter (fun e => is_prefix n (cs_name e) && cs_usable now mbf e) c.
 
 (* ------------------------------------------------------------------------------------------------ events, choices, results *)
 Record interest := { i_face : N; i_name : name; i_cbp : bool; i_mbf : bool; i_nonce : option N;
